@@ -121,13 +121,21 @@ Inductive call_result :=
 | Reply (r : Rp)
 | Failed (cls : string) (msg : string).
 
-(* c_dur: how long the plugin takes, in time units *)
-Record call := { c_res : call_result; c_dur : N }.
+(* c_dur: how long the plugin takes, in time units.
+   c_in_write: the call does not get past SENDING its request: the request does not fit the
+   transport's buffers and the peer has stopped reading.  ttrpc writes the request before it
+   enters the select on the context (client.go: createStream, then dispatch's select), and the
+   multiplexer's SetWriteDeadline is a stub, so the per-call deadline does not cut such a call: it
+   lasts c_dur — until the connection goes down — and then ends with c_res (ttrpc.ErrClosed).
+   findings/C07-stalled-reader-blocks-write.md *)
+Record call := { c_res : call_result; c_dur : N; c_in_write : bool }.
 
-(* context.WithTimeout(ctx, T): a call that lasts T or longer ends at T with DeadlineExceeded *)
+(* context.WithTimeout(ctx, T): a call that has sent its request and lasts T or longer ends at T
+   with DeadlineExceeded *)
 Definition effective (T : N) (c : call) : call_result :=
-  if N.leb T (c_dur c) then Failed "context.DeadlineExceeded" "context deadline exceeded" else c_res c.
-Definition call_time (T : N) (c : call) : N := N.min (c_dur c) T.
+  if c_in_write c then c_res c
+  else if N.leb T (c_dur c) then Failed "context.DeadlineExceeded" "context deadline exceeded" else c_res c.
+Definition call_time (T : N) (c : call) : N := if c_in_write c then c_dur c else N.min (c_dur c) T.
 
 Definition is_fatal (cls : string) : bool := smem cls fatal_errors.
 
@@ -278,7 +286,7 @@ End Relay.
 
 Arguments Reply {Rp}. Arguments Failed {Rp}.
 Arguments Ok {Rp}. Arguments Veto {Rp}. Arguments Fatal {Rp}.
-Arguments Build_call {Rp}. Arguments c_res {Rp}. Arguments c_dur {Rp}.
+Arguments Build_call {Rp}. Arguments c_res {Rp}. Arguments c_dur {Rp}. Arguments c_in_write {Rp}.
 Arguments effective {Rp}. Arguments call_time {Rp}. Arguments classify {Rp}.
 Arguments relay {Rq Rp Acc}. Arguments run_request {Rq Rp Acc Res}.
 Arguments exchanges {Rq Rp Acc}. Arguments eval_exchanges {Rp Acc}. Arguments result_of {Rq Rp Acc Res}.
